@@ -97,6 +97,9 @@ def gen_trajectory(rng):
         alt.append(max(a, 0.0))
         tas.append(t)
         ff.append(f)
+    if rng.random() < 0.08:                              # fuel-flow column with zero / negative / tiny entries
+        for _ in range(rng.randint(1, max(1, n // 3))):
+            ff[rng.randrange(n)] = rng.choice([0.0, 0.0, -rng.uniform(0.001, 0.2), 1e-12, 1e-6, 1e-3])
     pick = lambda: rng.choice([0, 1, n, rng.randint(0, n), rng.randint(0, max(n // 3, 0))])  # noqa: E731
     ncl, nde = pick(), pick()
     if rng.random() < 0.7 and ncl + nde > n:             # mostly consistent phase splits, some overlapping
@@ -134,7 +137,15 @@ def shape_trajectories():
             # phase counts no builder produces but the attribute API / stored files can carry: Python slice semantics
             ('descent-count-beyond-length-6', mk(6, 1, 8)), ('climb-count-beyond-length-6', mk(6, 9, 0)),
             ('negative-climb-count-6', mk(6, -2, 1)), ('negative-descent-count-6', mk(6, 1, -3)),
-            ('both-counts-beyond-length-6', mk(6, 7, 13))]
+            ('both-counts-beyond-length-6', mk(6, 7, 13))] + [
+        # point-wise fuel FLOW zero / negative / tiny at in-window points while the fuel MASS still drops over the
+        # segments ending there (the two columns are independent inputs; e.g. an idle-descent point reported with 0 flow)
+        (name, {**mk(n, ncl, nde), 'fuel_flow': ff}) for name, n, ncl, nde, ff in (
+            ('zero-fuel-flow-points-8', 8, 2, 2, [0.9, 0.8, 0.0, 0.7, 0.0, 0.0, 0.3, 0.2]),
+            ('negative-fuel-flow-point-8', 8, 2, 2, [0.9, 0.8, 0.7, -0.05, 0.6, 0.5, 0.3, 0.2]),
+            ('tiny-fuel-flow-points-8', 8, 1, 1, [0.9, 1e-9, 1e-12, 0.7, 1e-3, 0.5, 1e-6, 0.2]),
+            ('all-zero-fuel-flow-5', 5, 0, 0, [0.0, 0.0, 0.0, 0.0, 0.0]),
+            ('zero-fuel-flow-first-and-last-6', 6, 0, 0, [0.0, 0.9, 0.8, 0.7, 0.3, 0.0]))]
 
 
 def shape_cases(rng):
